@@ -753,7 +753,7 @@ OBLIGATIONS.append(_runner(
     "setup/cleanup; root calls",
     "runner and the real callback wrapper joined (SystemCommandCallback::new, RawCallbackSystem::run_with_cleanup, "
     "run_initialized_system): setup, body, the command's cleanup, THEN the body's deferred commands; the Local continues over both "
-    "commands; quiescent after each", ("thorough",), witness=_W_REPLAY))
+    "commands; quiescent after each", witness=_W_REPLAY))
 OBLIGATIONS[-1]["functions"] = OBLIGATIONS[-1]["functions"] + ["SystemCommandCallback::new", "spawn_system_command", "RawCallbackSystem::run_with_cleanup", "run_initialized_system"]
 OBLIGATIONS[-1]["src"] = OBLIGATIONS[-1]["src"] + ["src/ecs/callbacks.rs"]
 OBLIGATIONS.append(_runner("runner.witness", "runner_step_witness", ["C02", "C09", "C11"], "-", "vacuity twin of the runner step family",
@@ -839,7 +839,7 @@ _QUICK_ONLY_FOR = {
     "desp.witness": ["C12"], "ent.witness": ["C12"], "bundle.reactor_types": ["C06", "C16"],
     "rc.broadcast_0_2": ["C01", "C05"], "rc.broadcast_2_1": ["C01", "C05", "C03"],
     # runner steps / command application / setup-cleanup pairs (measured 25-150 s each)
-    "runner.replay_1_nested": ["C09"], "runner.replay_2_root": ["C02", "C11", "C05"], "runner.replay_3_root": ["C12", "C09"], "runner.poll_reaction": ["C08", "C02"], "runner.polls_after_run": ["C08", "C07", "C04"], "runner.self_despawn_root": ["C11"],
+    "runner.replay_1_nested": ["C09"], "runner.replay_2_root": ["C02", "C11", "C05"], "runner.replay_3_root": ["C12", "C09"], "runner.poll_reaction": ["C08", "C02"], "runner.real_callback": ["C04"], "runner.polls_after_run": ["C08", "C07", "C04"], "runner.self_despawn_root": ["C11"],
     "runner.missing_root": ["C02", "C18"], "runner.entity_without_system": ["C11", "C05"],
     "runner.busy_nested": ["C02", "C09", "C12"], "runner.plain_run": ["C02", "C13", "C04", "C09"], "runner.witness": ["C02", "C09"],
     "cmd.apply_system_command": ["C02"], "cmd.apply_event_command": ["C05", "C12"], "cmd.apply_reaction_resource": ["C02"],
